@@ -49,3 +49,8 @@ def forall_idx(n, pred):
 def ApplyCallable(func, datum, args, kwargs):
     """func(datum, *args, **kwargs): the call a prepared condition callable makes."""
     return func(datum, *args, **kwargs)
+
+
+def is_prefix(a, b):
+    """Sequence a is a prefix of sequence b."""
+    return list(b[:len(a)]) == list(a)
